@@ -73,6 +73,11 @@ def boundary_values(w):
         if k < w:
             extra += [(1 << k) - 1, 1 << k, (1 << k) + 1]
     extra += [0x5555555555555555 & m, 0xAAAAAAAAAAAAAAAA & m, ((1 << (w - 1)) | 1) & m, ((1 << (w - 1)) - 2) & m, 0x12345678DEADBEEF & m]
+    if w >= 32:
+        # packed sub-words: every 16-bit / 8-bit lane at its own boundary (vector-style instructions)
+        extra += [0x8000800080008000 & m, 0x7FFF7FFF7FFF7FFF & m, 0x8000000000000000 >> (64 - w) if w < 64 else 0x8000000000000000,
+                  0x0000800000008000 & m, 0x8000000080000000 & m, 0x8080808080808080 & m, 0x7F7F7F7F7F7F7F7F & m, 0xFFFF0000FFFF0000 & m,
+                  0x00FF00FF00FF00FF & m, 0x80007FFF80007FFF & m, 0x7FFF80007FFF8000 & m]
     out = []
     for v in vals + extra:
         v &= m
@@ -138,11 +143,29 @@ def slots_of(spec, ops):
 
 
 def states_for(spec, ops, budget, extra_slots=()):
+    """The state space of one program: the complete cross product of the slots' E5 domains if it
+    fits the budget; otherwise the cross product of the domains shrunk to the budget PLUS, for every
+    slot, a sweep over its complete domain with the other slots at rotating mandatory values (so
+    every boundary value of every operand occurs at least once whatever the budget)."""
     sl = slots_of(spec, ops) + list(extra_slots)
     if not sl:
         return sl, [()]
-    doms = shrink_domains([domain(w, r) for (_n, w, r) in sl], budget)
-    return sl, list(itertools.product(*doms))
+    full = [domain(w, r) for (_n, w, r) in sl]
+    total = 1
+    for d in full:
+        total *= len(d)
+    if total <= budget:
+        return sl, list(itertools.product(*full))
+    doms = shrink_domains(full, budget)
+    states = list(itertools.product(*doms))
+    seen = set(states)
+    for i, d in enumerate(full):
+        for k, v in enumerate(d):
+            vec = tuple(v if j == i else full[j][(k + 2 * j + i) % min(5, len(full[j]))] for j in range(len(full)))
+            if vec not in seen:
+                seen.add(vec)
+                states.append(vec)
+    return sl, states
 
 
 # --------------------------------------------------------------------------------------
